@@ -382,6 +382,35 @@ func runServer(c reqCase) ([]string, error) {
 	if err := exchange(by, byCol, len(byWant), byReq[half:], byWant); err != nil {
 		return labels, fmt.Errorf("bystander connection (half a request pending while %x was handled on another connection, handler %s): %v", []byte(c.Frame), c.Handler, err)
 	}
+	// two more connections, opened after all that (the first ones since then), live at the same time and used alternately: the first sends half a request, the
+	// second a whole one, the first the rest. Each gets the reply to its own request.
+	if closed {
+		time.Sleep(3 * time.Millisecond) // (the server finishes its bookkeeping for the closed connection)
+	}
+	ca, err := l.Dial()
+	if err != nil {
+		return labels, fmt.Errorf("harness: %v", err)
+	}
+	defer ca.Close()
+	cb, err := l.Dial()
+	if err != nil {
+		return labels, fmt.Errorf("harness: %v", err)
+	}
+	defer cb.Close()
+	caCol, cbCol := srv.Collect(ca), srv.Collect(cb)
+	reqA := spec.EncodeRequest(spec.TCP, spec.Req{FC: 3, Unit: byUnit, Tx: 0x0A0A, Addr: 7, Qty: 3})
+	reqB := spec.EncodeRequest(spec.TCP, spec.Req{FC: 4, Unit: byUnit, Tx: 0x0C0C, Addr: 2, Qty: 1})
+	wantA, wantB := device.New(c.DevSeed).Answer(spec.TCP, reqA), device.New(c.DevSeed).Answer(spec.TCP, reqB)
+	_ = ca.SetWriteDeadline(time.Now().Add(5 * time.Second))
+	if _, err := ca.Write(reqA[:9]); err != nil {
+		return labels, fmt.Errorf("later connection A: write failed: %v", err)
+	}
+	if err := exchange(cb, cbCol, 0, reqB, wantB); err != nil {
+		return labels, fmt.Errorf("two connections opened after request %x (handler %s) and used alternately; connection B, while A has 9 bytes of a request pending: %v", []byte(c.Frame), c.Handler, err)
+	}
+	if err := exchange(ca, caCol, 0, reqA[9:], wantA); err != nil {
+		return labels, fmt.Errorf("two connections opened after request %x (handler %s) and used alternately; connection A, completing its request after B was served: %v", []byte(c.Frame), c.Handler, err)
+	}
 	nc, err := l.Dial()
 	if err != nil {
 		return labels, fmt.Errorf("new connection after request %x: %v", []byte(c.Frame), err)
